@@ -135,6 +135,9 @@ def fill(obj, mode, rng, depth=0):
                     s = ascii_sweep(n - 1, rng.randrange(127))
                 elif mode in ("min", "max"):
                     s = ('"\\' * n)[:n - 1] if mode == "min" else ("\x7f\x01\t\n\r'" * n)[:n - 1]
+                elif mode == "floats":
+                    # texts that mean something to a JSON reader or writer, next to the special float values of this mode
+                    s = rng.choice(["NaN", "Infinity", "-Infinity", "null", "true", '{"z": NaN}', "NaN NaN", "1e999", "nan"])[:n - 1]
                 else:
                     s = "".join(rng.choice("abcXYZ 0129_-\"\\/{}[]:,'\t\n") for _ in range(rng.randint(0, n - 1)))
                 setattr(obj, name, s)
